@@ -1,5 +1,8 @@
-//! C13 harness: graceful-shutdown scenarios (accept_loop driven directly and the full server).
-//! The scenario driver is shared with C12 (src/acc_common.rs).
+//! C13 harness: token pool API sequences, accept_loop driven directly, full-server scenarios.
+//! The scenario code is shared: src/srv_common.rs (public API only) and src/acc_common.rs
+//! (servlin::internal::{TokenSet, Token, accept_loop}).
+#[path = "../srv_common.rs"]
+mod srv_common;
 #[path = "../acc_common.rs"]
 mod acc_common;
 fn main() {
